@@ -333,6 +333,7 @@ type replayResult struct {
 	Timeout   bool     `json:"timeout"`
 	Crash     bool     `json:"crash"`
 	Output    string   `json:"output"`
+	Leftover  string   `json:"leftover"`
 }
 
 // nativeReplay runs the given tapes against the real build via go test -overlay.
@@ -718,6 +719,9 @@ func cmdCheck(args []string) int {
 					confirmed, how = true, "native assertion "+rr.Failed
 				case (p.tape.Label == "nontermination" || p.tape.Label == "deadlock") && rr.Timeout:
 					confirmed, how = true, "native watchdog timeout"
+				case strings.HasSuffix(p.tape.Label, "nothing_running") && rr.Leftover != "" && rr.Failed == "":
+					// inside a synctest bubble leftover goroutines show as the bubble's deadlock panic
+					confirmed, how = true, "native: "+rr.Leftover
 				}
 			}
 			if !confirmed {
